@@ -1614,7 +1614,7 @@ func (g *c04o) splitCase(k int) (c04SplitCase, []c04Split) {
 
 func runC04Oracle(ctx *core.Ctx, gg *c04g) {
 	g := &c04o{gg}
-	for i := 0; i < ctx.Pick(2500, 60000); i++ {
+	for i := 0; i < ctx.Pick(2000, 50000); i++ {
 		k := 1
 		if i%10 >= 7 {
 			k = 2 + ctx.Rng.Intn(3)
